@@ -405,6 +405,56 @@ RESULT = "{a}-{b}".format(a=1)
     ("format-missing-position", '''
 RESULT = "{}-{}".format(1)
 ''', "raise IndexError"),
+    ("private-names-mangled-in-class-bodies", '''
+class A:
+    __limit = 3
+    def __helper(self, x):
+        return x + self.__limit
+    def run(self, x):
+        __tmp = self.__helper(x)
+        return __tmp
+class B(A):
+    def __helper(self, x):
+        return -1
+RESULT = (B().run(1), sorted(k for k in vars(A) if "helper" in k or "limit" in k), hasattr(A, "__helper"))
+''', "(4, ['_A__helper', '_A__limit'], False)"),
+    ("user-subclass-of-dict-and-list", '''
+class Memo(dict):
+    hits = 0
+    def knows(self, q): return q in self
+    def recall(self, q): return list(self[q])
+    def remember(self, q, a): self[q] = list(a)
+    def __setitem__(self, k, v):
+        self.last = k
+        super().__setitem__(k, v)
+class Stack(list):
+    def __init__(self, *a):
+        super().__init__(a)
+        self.tag = "s"
+    def push(self, x): self.append(x); return self
+m = Memo()
+m.remember((1, 2), [3])
+m[(4,)] = [5]
+s = Stack(1, 2).push(3)
+RESULT = (m.knows((1, 2)), m.knows((9,)), m.recall((1, 2)), m.last, len(m), isinstance(m, dict), type(m).__name__, dict(m) == {(1, 2): [3], (4,): [5]},
+          list(s), s.tag, isinstance(s, list), bool(Memo()), sorted(m))
+''', "(True, False, [3], (4,), 2, True, 'Memo', True, [1, 2, 3], 's', True, False, [(1, 2), (4,)])"),
+    ("metaclass-dunders-apply-to-classes", '''
+class Meta(type):
+    live = {}
+    def __len__(cls): return 1 if cls in Meta.live else 0
+class NMeta(type):
+    def __eq__(cls, other): return isinstance(other, NMeta) and cls.__name__ == other.__name__
+    def __hash__(cls): return hash(cls.__name__)
+class A(metaclass=Meta): pass
+class B(metaclass=Meta): pass
+Meta.live[A] = 1
+S1 = NMeta("Service", (), {})
+S2 = NMeta("Service", (), {})
+T = NMeta("Other", (), {})
+d = {S1: "one"}
+RESULT = (bool(A), bool(B), "yes" if B else "no", S1 == S2, S1 is S2, S1 == T, S2 in d, T in d, d[S2], len({S1, S2, T}), S2 in [S1])
+''', "(True, False, 'no', True, False, False, True, False, 'one', 2, True)"),
 ]
 
 
